@@ -184,6 +184,10 @@ fn renderings(case: &Case, date_str: &str, t: &mut Tally) -> Vec<(String, String
         };
     }
     all!("KSecretKey", ks);
+    // a secret that does not fit must not be echoed by the refusal either
+    if let Err(e) = KSecretKey::<8>::from_str(&secret) {
+        all!("KeyTooLongError", e);
+    }
     all!("KDateKey", kd);
     all!("KRegionKey", kr);
     all!("KServiceKey", kv);
